@@ -829,10 +829,25 @@ fn law_case(cx: &mut Cx, t: &Tera, rng: &mut Rng) {
         4 => (0, *rng.pick(&[100_001i128, 1_000_000, i128::MAX, 1 << 62]), 1),
         _ => (rng.range(-10, 10) as i128, rng.range(-300, 10) as i128, -(rng.range(1, 7) as i128)),
     };
+    // integer arguments may arrive as floats that hold an integer exactly (2^63 as a float, 3.0): the value must not change
+    let as_arg = |rng: &mut Rng, x: i128| -> Value {
+        if rng.chance(1, 5) && ((x as f64) as i128) == x && (x as f64).abs() < 1.7e38 {
+            Value::from(x as f64)
+        } else {
+            Value::from(x)
+        }
+    };
+    let (s, e, st) = if rng.chance(1, 30) {
+        // around 2^63, where a float is exact and a 64-bit shortcut would saturate
+        let b = 1i128 << 63;
+        *rng.pick(&[(b - 3, b, 1i128), (b, b + 3, 1), (-b - 2, -b + 1, 1), (b, b - 4, -2), ((1i128 << 64) - 2, 1i128 << 64, 1)])
+    } else {
+        (s, e, st)
+    };
     let mut c5 = Context::new();
-    c5.insert_value("s", Value::from(s));
-    c5.insert_value("e", Value::from(e));
-    c5.insert_value("t", Value::from(st));
+    c5.insert_value("s", as_arg(rng, s));
+    c5.insert_value("e", as_arg(rng, e));
+    c5.insert_value("t", as_arg(rng, st));
     let rrp = json!({"start": s.to_string(), "end": e.to_string(), "step_by": st.to_string()});
     let r = rend!("range", &c5);
     // exact expected length in wide arithmetic
